@@ -84,7 +84,7 @@ def run(res, props_file, pinned, tag, what):
         "evaluations": len(all_cases),
         "distinct_nontrivial": len(nontrivial),
         "rule": "three domains drive the real signer: nodeops (new/setup/forget channel, heartbeat, allowlist add/remove/set with "
-                "and without an unparsable entry, keysend approvals, refused channel requests and set-ups (node calls and protocol messages), "
+                "and without an unparsable entry, keysend approvals, invoices issued by the node (SignInvoice: five payment hashes, the same invoice again, another invoice for a hash that has one, no amount, a full table), refused channel requests and set-ups (node calls and protocol messages), "
                 "restarts; 6..30 requests; one case in three on the transactional store CloudKVVStore<MemoryKVVStore> the way the daemon "
                 "drives it -- enter, one to three requests, prepare, the reported records go to a cloud replica with its version rule, "
                 "commit -- with a signer restored at each crash point: between prepare and commit (old local store brought up to date "
